@@ -96,6 +96,14 @@ func (dpq *DelayedPriorityQueue) Enqueue(
 		dpq.mutex.Lock()
 		defer dpq.mutex.Unlock()
 		dpq.requestCounts[req.priority]--
+		select {
+		case <-req.doneCh:
+			// released by the window processor while the TTL fired: the slot is
+			// already counted for this request
+			return true, nil
+		default:
+		}
+		req.abandoned = true
 		return false, nil
 	}
 }
@@ -167,16 +175,17 @@ func (dpq *DelayedPriorityQueue) processQueueItems() {
 		dpq.cl.Logger.Trace().
 			Str("requestID", req.ID).
 			Msgf("Attempt to process queued request")
-		select {
-		case req.doneCh <- struct{}{}:
-			close(req.doneCh)
-			dpq.currentWindowCounter++
+		if req.abandoned {
 			dpq.cl.Logger.Trace().Str("requestID", req.ID).
-				Msgf("notified successful request processing to req.doneCh")
-		default:
-			dpq.cl.Logger.Trace().Str("requestID", req.ID).
-				Msgf("req.doneCh already closed")
+				Msgf("request TTLed while waiting, skipping")
+			continue
 		}
+		// closing never blocks and is seen by the waiter even if it has not yet
+		// parked on doneCh (it may still be between Unlock and its select)
+		close(req.doneCh)
+		dpq.currentWindowCounter++
+		dpq.cl.Logger.Trace().Str("requestID", req.ID).
+			Msgf("notified successful request processing to req.doneCh")
 		dpq.cl.Logger.Trace().Msgf("request %s processed in queue", req.ID)
 	}
 }
